@@ -126,6 +126,18 @@ theorem allPairs_iff {α} (l : List α) (p : α → α → Bool) :
     Spec.Series.allPairs l p = true ↔ ∀ x ∈ l, ∀ y ∈ l, p x y = true := by
   simp [Spec.Series.allPairs, List.all_eq_true]
 
+theorem mem_numsBh (o : Opts) (evs : List Ev) (p : Ev × Bytes) :
+    p ∈ Spec.Series.numsBh o evs ↔ p.1 ∈ evs ∧ p.1.isNum o = true ∧ p.2 = Spec.Series.bhash o evs p.1.trial := by
+  unfold Spec.Series.numsBh
+  rw [List.mem_map]
+  constructor
+  · rintro ⟨e, he, rfl⟩
+    obtain ⟨h1, h2⟩ := List.mem_filter.mp he
+    exact ⟨h1, h2, rfl⟩
+  · rintro ⟨h1, h2, h3⟩
+    refine ⟨p.1, List.mem_filter.mpr ⟨h1, h2⟩, ?_⟩
+    rw [← h3]
+
 theorem WFp_of_WF {env : Env} {o : Opts} {pol : Policy} {evs : List Ev}
     (h : Spec.Series.WF env o pol evs = true) : WFp env o pol evs := by
   unfold Spec.Series.WF at h
@@ -149,7 +161,8 @@ theorem WFp_of_WF {env : Env} {o : Opts} {pol : Policy} {evs : List Ev}
     have := h2 x (List.mem_filter.mpr ⟨hx, nx⟩) y (List.mem_filter.mpr ⟨hy, ny⟩)
     simpa [e] using this
   · intro x hx y hy nx ny e1 e2
-    have := h3 x (List.mem_filter.mpr ⟨hx, nx⟩) y (List.mem_filter.mpr ⟨hy, ny⟩)
+    have := h3 (x, bh o evs x) ((mem_numsBh o evs _).mpr ⟨hx, nx, rfl⟩) (y, bh o evs y)
+      ((mem_numsBh o evs _).mpr ⟨hy, ny, rfl⟩)
     simp only [e1, e2, ne_eq, not_true_eq_false, decide_false, Bool.false_or, Bool.and_eq_true,
       decide_eq_true_eq, Bool.or_eq_true] at this
     obtain ⟨a, b⟩ := this
@@ -169,13 +182,13 @@ theorem WFp_of_WF {env : Env} {o : Opts} {pol : Policy} {evs : List Ev}
     subst hpol
     simp only [ne_eq, not_true_eq_false, decide_false, Bool.false_or] at h3c
     unfold Spec.Series.W3c at h3c
-    simp only [List.all_eq_true, List.any_eq_true, Bool.or_eq_true, Bool.and_eq_true, decide_eq_true_eq,
-      List.mem_filter] at h3c
-    rcases h3c x ⟨hx, nx⟩ with h | ⟨c, ⟨hc, nc⟩, ⟨⟨e1, e2⟩, hall⟩⟩
+    simp only [List.all_eq_true, List.any_eq_true, Bool.or_eq_true, Bool.and_eq_true, decide_eq_true_eq] at h3c
+    rcases h3c (x, bh o evs x) ((mem_numsBh o evs _).mpr ⟨hx, nx, rfl⟩) with h | ⟨c, hcm, ⟨⟨e1, e2⟩, hall⟩⟩
     · exact absurd h hb
-    · refine ⟨c, hc, nc, e1, e2, ?_⟩
+    · obtain ⟨hc, nc, hcb⟩ := (mem_numsBh o evs c).mp hcm
+      refine ⟨c.1, hc, nc, e1, e2, ?_⟩
       intro d hd nd e3 e4 e5
-      have := hall d ⟨hd, nd⟩
+      have := hall (d, bh o evs d) ((mem_numsBh o evs _).mpr ⟨hd, nd, rfl⟩)
       simpa [e3, e4, e5] using this
   · intro x hx y hy e
     have := h5 x hx y hy
